@@ -122,6 +122,27 @@ func (stageComp) Corpus() [][]string {
 		// crash right after the receive-log record, before the move: Recover must finish the delivery
 		{"base ?", "recover 0", "prepare a 3 0", "recv a - - 3 b1.2.3 0 3 1.2.3 0", "process a 0", "cut 1 finh a 0", "observe", "recover 0", "settle 0", "observe", "status a 0 0"},
 		{"base ?", "recover 0", "prepare a 3 0", "recv a - - 3 b1.2.3 0 3 1.2.3 0", "process a 0", "cut 3 finh a 0", "observe", "recover 0", "settle 0", "observe", "status a 0 0"},
+		// C06 / C05 (fixed defect "Ignoring duplicate (recover)"): the last part of a delivered file arrives again (lost
+		// acknowledgement) and the receiver dies after the companion's rename, before the duplicate branch removes the
+		// partial: Recover must drop the staged copy, not validate, log and deliver it a second time
+		{"base ?", "recover 0", "prepare a 2 0", "recv a - - 2 b1.2 0 2 1.2 0", "settle 0", "observe", "consume a", "prepare a 2 0",
+			"cut 3 recv a - - 2 b1.2 0 2 1.2 0", "observe", "recover 0", "settle 0", "observe", "status a 0 0"},
+		{"base ?", "recover 0", "prepare a 3 0", "recv a - - 3 b1.2.3 0 2 1.2 0", "recv a - - 3 b1.2.3 2 3 3 0", "settle 0", "observe", "prepare a 3 0",
+			"recv a - - 3 b1.2.3 0 2 1.2 0", "cut 3 recv a - - 3 b1.2.3 2 3 3 0", "observe", "recover 0", "settle 0", "observe", "status a 0 0", "scan"},
+		// ... and a crash inside that duplicate branch of Recover (after `.full` is removed: the orphan companion goes at the next start)
+		{"base ?", "recover 0", "prepare a 2 0", "recv a - - 2 b1.2 0 2 1.2 0", "settle 0", "observe", "prepare a 2 0",
+			"cut 3 recv a - - 2 b1.2 0 2 1.2 0", "cut 2 recover 0", "observe", "recover 0", "settle 0", "observe", "status a 0 0"},
+		// fixed defect "buildCache kept the oldest of several records of a name": two versions of a name delivered; after a
+		// restart the cache must describe the latest one, so that a duplicate of it is dropped by Recover ...
+		{"base ?", "recover 0", "prepare a 2 0", "recv a - - 2 b1.2 0 2 1.2 0", "settle 0", "prepare a 2 0", "recv a - - 2 b3.4 0 2 3.4 0", "settle 0", "observe",
+			"prepare a 2 0", "cut 3 recv a - - 2 b3.4 0 2 3.4 0", "observe", "recover 0", "settle 0", "observe", "status a 0 0"},
+		// ... and by Receive
+		{"base ?", "recover 0", "prepare a 2 0", "recv a - - 2 b1.2 0 2 1.2 0", "settle 0", "prepare a 2 0", "recv a - - 2 b3.4 0 2 3.4 0", "settle 0", "observe",
+			"crash", "recover 0", "prepare a 2 0", "recv a - - 2 b3.4 0 2 3.4 0", "settle 0", "observe", "status a 0 0",
+			"prepare a 2 0", "recv a - - 2 b1.2 0 2 1.2 0", "settle 0", "observe", "status a 0 0"},
+		// C06 class (A) with an unrecorded `.full`: validation failed, the retransmission's Prepare removed the companion, crash
+		{"base ?", "recover 0", "prepare k 2 0", "recv k - - 2 b9.9 0 2 1.2 0", "process k 0", "observe", "cut 1 prepare k 2 0", "observe", "recover 0", "observe", "scan",
+			"prepare k 2 0", "recv k - - 2 b1.2 0 2 1.2 0", "settle 0", "observe", "status k 0 0"},
 		// a delivery known only from the log of an earlier run must be remembered also after the
 		// cache was aged, and a retransmission of it is not delivered again
 		{"base ?", "oldlog x - b1.2 2 -260000", "oldlog y - b3 1 -260000", "recover 0", "received x - - b1.2 -270000 0 2 1", "cleancache 2", "received x - - b1.2 -270000 0 2 3",
@@ -144,6 +165,10 @@ func (stageComp) Generate(r *Rand, tier string, n int) [][]string {
 		}
 		if i%10 == 3 {
 			cases = append(cases, genStageCache(r))
+			continue
+		}
+		if i%10 == 7 {
+			cases = append(cases, genStageDupCrash(r))
 			continue
 		}
 		if i%2 == 1 {
@@ -275,6 +300,91 @@ func (stageComp) Generate(r *Rand, tier string, n int) [][]string {
 		cases = append(cases, ops)
 	}
 	return cases
+}
+
+// genStageDupCrash: files are delivered (some are then taken by the consumer); parts of them arrive again (the
+// sender lost an acknowledgement, or restarted) and the receiver dies inside one of these duplicate receptions —
+// at every durable step of it, in particular between the companion's rename and the removal of the partial by the
+// "Ignoring duplicate (receive)" branch — or inside the Recover that follows; then recover + settle: nothing that is
+// logged and delivered may be validated, logged or delivered again (oracles logged-twice, delivered-twice), and a
+// new version of the name that arrives the same way must still go through.
+func genStageDupCrash(r *Rand) []string {
+	ops := []string{"base ?", "recover 0"}
+	names := []string{"a", "b", "d/c", "x.y"}
+	r.Shuffle(len(names), func(i, j int) { names[i], names[j] = names[j], names[i] })
+	nf := r.Range(1, 2)
+	var files []*sfile
+	for j := 0; j < nf; j++ {
+		prev := ""
+		if j > 0 && r.Chance(0.4) {
+			prev = files[j-1].name
+		}
+		files = append(files, genFile(r, names[j], prev))
+	}
+	for _, f := range files {
+		ops = append(ops, fmt.Sprintf("prepare %s %d 0", esc(f.name), len(f.body)))
+		for k := 0; k+1 < len(f.cuts); k++ {
+			ops = append(ops, f.recvOp(k))
+		}
+	}
+	ops = append(ops, "settle 0", "observe")
+	for _, f := range files {
+		if r.Chance(0.5) {
+			t := f.renamed
+			if t == "" {
+				t = f.name
+			}
+			ops = append(ops, "consume "+esc(t))
+		}
+	}
+	if r.Chance(0.3) {
+		ops = append(ops, "crash", "recover 0")
+	}
+	rounds := r.Range(1, 2)
+	for rd := 0; rd < rounds; rd++ {
+		f := files[r.Intn(len(files))]
+		g := f
+		if r.Chance(0.2) {
+			// a new version of the name instead of a duplicate
+			g = &sfile{name: f.name, renamed: f.renamed, prev: f.prev, body: genBody(r, len(f.body)), cuts: f.cuts}
+			g.hash = modelHashOfBody(g.body)
+		}
+		ops = append(ops, fmt.Sprintf("prepare %s %d 0", esc(g.name), len(g.body)))
+		last := len(g.cuts) - 2
+		for k := 0; k < last; k++ {
+			ops = append(ops, g.recvOp(k))
+		}
+		k := 3 // after the companion's rename
+		if r.Chance(0.4) {
+			k = r.Range(0, 6)
+		}
+		ops = append(ops, fmt.Sprintf("cut %d %s", k, g.recvOp(last)), "observe")
+		if r.Chance(0.25) {
+			ops = append(ops, fmt.Sprintf("cut %d recover 0", r.Range(1, 3)), "observe")
+		}
+		ops = append(ops, "recover 0")
+		if r.Chance(0.3) {
+			ops = append(ops, "scan")
+		}
+		ops = append(ops, "settle 0", "observe")
+		for _, x := range files {
+			ops = append(ops, fmt.Sprintf("status %s 0 0", esc(x.name)))
+		}
+		if g != f {
+			// the sender resumes the new version
+			ops = append(ops, fmt.Sprintf("prepare %s %d 0", esc(g.name), len(g.body)))
+			for k := 0; k+1 < len(g.cuts); k++ {
+				ops = append(ops, g.recvOp(k))
+			}
+			ops = append(ops, "settle 0", "observe", fmt.Sprintf("status %s 0 0", esc(g.name)))
+			for i, x := range files {
+				if x == f {
+					files[i] = g
+				}
+			}
+		}
+	}
+	return ops
 }
 
 // genStageScenario: targeted histories — explicit pipeline scheduling, new versions of a
